@@ -207,6 +207,10 @@ impl Model {
                 Some(i) => {
                     self.gos[i].bestmove = Some(rest.trim().to_string());
                     self.gos[i].bestmove_us = Some(t_us);
+                    if self.infinite && self.gos[i].ended_by.is_empty() {
+                        // no `stop` had been sent for this `go infinite` when its bestmove was read
+                        self.gos[i].ended_by = "spontaneous".into();
+                    }
                     // the engine drops its game after announcing the move
                     self.pos = None;
                     self.infinite = false;
